@@ -1,0 +1,11 @@
+//go:build verif
+
+package token
+
+// Contracts for the tgvc verifier (see /verif/DESIGN.md). Comment-only file.
+
+// binary operator precedence = the table in docs/tutorial.md
+//@ func (Token).Precedence
+//@   props C20
+//@   assigns nothing
+//@   ensures table: result == int(spec.prec(int64(tok)))
